@@ -16,7 +16,7 @@ def run(tier, seed):
         runs = [['2', '8', '3'], ['n', '4', '3']]
     spaces = []
     for a in runs:
-        doc = common.run_engine([common.RQMC, 'c01'] + a)
+        doc = common.run_engine_parts([common.RQMC, 'c01'] + a)
         common.merge_engine(res, doc)
         spaces.append({'alphabet': doc['alphabet'], 'max_script_len': doc['max_script_len'], 'max_context': doc['max_context'],
                        'evaluations': doc['evaluations'], 'ok': doc['counters'].get('ok', 0), 'wall_s': doc['wall_s']})
